@@ -135,8 +135,15 @@ def res2(lang_, form):
     return ["{{ result().val3 }}", "{{ result()['val3'] }}", '{{ result().get("val3") }}'][form % 3]
 
 
-def pipeline(lang_, forms):
+def pipeline(lang_, forms, raw=False):
     f = lambda i: forms[i % len(forms)]  # noqa
+    whole = "<% result() %>" if lang_ == "yaql" else "{{ result() }}"
+    rs = (lambda l_, f_: whole) if raw else res
+    rs2 = (lambda l_, f_: whole) if raw else res2
+    return _pipeline(lang_, f, rs, rs2)
+
+
+def _pipeline(lang_, f, res, res2):
     return {
         "input": ["v"],
         "vars": [{"w": ref("v", lang_, f(0))}],
@@ -161,7 +168,16 @@ def run_transport(scn, stats):
     V3 = scn.get("v3", V2)
     if isinstance(V, dict) and isinstance(V3, dict):
         V3 = [V3]  # a mapping republished over a mapping is merged key by key (not a transport question)
-    defn = pipeline(scn["lang"], scn["forms"])
+    raw = bool(scn.get("raw"))
+    if raw:
+        # the action result *is* the value (not a mapping that holds it): falsy results (0, false, "", [], {})
+        # must arrive as they are
+        V3 = V2
+        if isinstance(V, dict) and isinstance(V2, dict):
+            raw = False  # (republished over a mapping it would be merged key by key, see above)
+            V3 = scn.get("v3", V2)
+            V3 = [V3] if isinstance(V3, dict) else V3
+    defn = pipeline(scn["lang"], scn["forms"], raw)
     drv = provider.Driver(defn, {"v": copy.deepcopy(V)})
     if drv.spec.inspect():
         raise Violation("pipeline-rejected", {"inspect": drv.spec.inspect(), "definition": defn})
@@ -203,7 +219,7 @@ def run_transport(scn, stats):
         expect("vars->action input (w)", o["actions"][0]["input"].get("b"), V)
         expect("task context", o["ctx"].get("v"), V)
         maybe_restore()
-        drv.apply({"op": "done", "a": ["t1", 0, None], "status": "succeeded", "result": {"val": copy.deepcopy(V2), "val3": copy.deepcopy(V3)}})
+        drv.apply({"op": "done", "a": ["t1", 0, None], "status": "succeeded", "result": copy.deepcopy(V2) if raw else {"val": copy.deepcopy(V2), "val3": copy.deepcopy(V3)}})
         noleak("after t1")
         ctxs = drv.c.serialize()["state"]["contexts"]
         expect("result->publish", ctxs[-1].get("p"), V2)
@@ -247,7 +263,9 @@ def run_transport(scn, stats):
         stats.label("hazard-scalar")
     if restore:
         stats.label("with-restore")
-    if d >= 2 or hz:
+    if raw:
+        stats.label("result-is-the-value" + ("-falsy" if not V2 and V2 is not None else ""))
+    if d >= 2 or hz or (raw and not V2):
         stats.mark_nontrivial(scn)
         stats.sample({"v": repr(V)[:200], "v2": repr(V2)[:200], "lang": scn["lang"], "forms": scn["forms"], "restore": sorted(restore)})
 
@@ -278,8 +296,17 @@ def strat_transport(tier):
         "lang": st.sampled_from(["yaql", "jinja"]),
         "forms": st.lists(st.integers(0, 11), min_size=3, max_size=12),
         "restore": st.sets(st.integers(1, 7), max_size=3).map(sorted),
+        "raw": st.sampled_from([0, 0, 1]),
+        "falsy": st.sampled_from([None, None, 0, False, "", [], {}, 0.0]),
     })
-    return base.map(lambda d: dict(d, v3=twin_of(d["v"]) if d["v3mode"] == "twin" else d["v3fresh"]))
+
+    def fin(d):
+        d = dict(d, v3=twin_of(d["v"]) if d["v3mode"] == "twin" else d["v3fresh"])
+        if d["raw"] and d["falsy"] is not None:
+            d["v2"] = d["falsy"]  # the whole action result is a falsy value
+        return d
+
+    return base.map(fin)
 
 
 # ----------------------------------------------------------------------------- purity
